@@ -21,4 +21,28 @@ PROPS = {
                              "protected-len/>=256", "signers>=3"],
         "assumptions": COMMON_ASSUMPTIONS,
     },
+    "C08": {
+        "level": "exploration",
+        "rule": "rapid draws in-memory messages (Sign1/untagged/Sign, 0..40 header entries per bucket with random Go integer spellings, nested containers, countersignatures single/list/abbreviated, alg present or to be injected) and bare header buckets; every layer is signed by a spy signer so the bytes are predictable. Oracle: output == reference deterministic encoding of the abstract value, identical over 8 repetitions and over reversed map insertion order, canonical features re-checked by the reference parser (also inside every protected bstr), signed protected bytes == emitted protected bytes, decoder accepts and re-encodes identically with raw bytes kept and discarded. Non-trivial = some map has >= 2 keys whose insertion order differs from the sorted order; distinct by hash of the abstract case.",
+        "parts": [
+            {"test": "TestC08_Messages", "quick": 1500, "thorough": 40000, "shards_quick": 4, "shards_thorough": 16},
+            {"test": "TestC08_Headers", "quick": 2000, "thorough": 40000, "shards_quick": 2, "shards_thorough": 8},
+        ],
+        "required_classes": ["insertion-order!=sorted-order", "entries/>=20", "with-countersignatures", "alg-injected",
+                             "encoded/Sign1", "encoded/Sign1Untagged", "encoded/Sign", "header-buckets"],
+        "assumptions": COMMON_ASSUMPTIONS,
+    },
+    "C02": {
+        "level": "exploration",
+        "rule": "three generators: (1) in-memory messages of every kind signed layer by layer with recording signers (ToBeSigned compared byte for byte with the reference Sig_structure/Countersign_structure built from the abstract message, incl. alg injection; metamorphic re-run with the other tag form, nil<->empty external data and different unprotected headers), (2) peer-encoded wire messages decoded and verified with recording verifiers (expected structure computed from the wire bytes located by the reference parser), (3) user-supplied RawProtected items with arbitrary head width. Non-trivial = a recorded ToBeSigned was compared and, for decoded/raw cases, the message was not deterministically encoded (non-minimal protected head or non-canonical inner map); distinct by hash of the ToBeSigned bytes.",
+        "parts": [
+            {"test": "TestC02_Constructed", "quick": 1500, "thorough": 40000, "shards_quick": 3, "shards_thorough": 12},
+            {"test": "TestC02_Decoded", "quick": 2000, "thorough": 50000, "shards_quick": 3, "shards_thorough": 12},
+            {"test": "TestC02_Raw", "quick": 3000, "thorough": 50000, "shards_quick": 2, "shards_thorough": 4},
+        ],
+        "required_classes": ["context/Signature1", "context/Signature", "protected-len/0", "protected-len/<24", "protected-len/24-255", "protected-len/>=256",
+                             "decoded/non-canonical-inner-map", "decoded/non-minimal-protected-head", "signer-index>=2", "raw/non-minimal-head",
+                             "metamorphic-tag-ext", "metamorphic-tag-ext-unprotected"],
+        "assumptions": COMMON_ASSUMPTIONS,
+    },
 }
